@@ -11,9 +11,10 @@ ENGINE = 'E2 solo'
 TECHNIQUE = ('property-based testing: generated prefix, closure by every route, then generated API calls and peer '
              'frames; output monitor "nothing but GOAWAY after closure"')
 RULE = ('cases: a valid prefix that opens and closes streams, closure by close_connection / a received GOAWAY / one '
-        'connection error from a C18 category, then 5..30 steps of arbitrary API calls (all of them, including '
+        'connection error from a C18 category (optionally with received data partly acknowledged and a local '
+        'SETTINGS change still unacknowledged at that moment), then 5..30 steps of arbitrary API calls (all of them, including '
         'acknowledge_received_data, increment_flow_control_window, clear_outbound_data_buffer) and received frames of '
-        'every type; also: un-read output is discarded by a received GOAWAY; non-trivial = the suffix holds >= 1 call '
+        'every type; also: un-read output (including our own GOAWAY after a local close) is discarded by a received GOAWAY; non-trivial = the suffix holds >= 1 call '
         'and >= 1 frame that would have produced output before closure; distinct by trace')
 ASSUMPTIONS = ['calls that raise must raise an h2 exception (or the documented ValueError/TypeError argument checks)']
 TIERS = {'quick': {'cases': 5000, 'size': 300},
@@ -34,6 +35,15 @@ def run_case(data):
     if data_sid:
         ep.recv(wire.data(data_sid, b'x' * 16384) + wire.data(data_sid, b'x' * 16384) +
                 wire.data(data_sid, b'x' * 7232))
+    # state that a frame arriving after closure could still act on: acknowledged-but-uncredited bytes and a
+    # local settings change whose acknowledgement is still in flight
+    if data_sid and ch.bool():
+        ep.call('acknowledge_received_data', ch.pick([20000, 1000, 30000]), data_sid)
+        r.labels.add('partly-acknowledged-before-close')
+    if ch.chance(100):
+        ep.call('update_settings', {wire.S_INITIAL_WINDOW_SIZE: ch.pick([30000, 1000, 0, 100000]),
+                                    wire.S_MAX_CONCURRENT_STREAMS: ch.pick([0, 1, 50])})
+        r.labels.add('settings-in-flight-at-close')
     route = ch.weighted([(3, 'close_connection'), (3, 'recv-goaway'), (4, 'connection-error')])
     if route == 'close_connection':
         o = ep.call('close_connection', ch.pick([0, 2, 11]))
@@ -160,6 +170,11 @@ def discard_case(ch, r, client):
     for _ in range(ch.int(0, 4)):
         c.ping(ch.bytes(8))
         pending += 1
+    if ch.chance(100):
+        # we closed the connection ourselves first: our GOAWAY and whatever was queued before it are still unread
+        c.close_connection(ch.pick([0, 2]))
+        pending += 1
+        r.labels.add('discard-after-local-close')
     r.step('discard', 'client' if client else 'server', 'pending calls', pending)
     try:
         evs = c.receive_data(wire.goaway(0, ch.pick([0, 2])))
